@@ -31,13 +31,14 @@ try:
     os.makedirs(os.path.join(repo, '_mutants', 'm'), exist_ok=True)
     shutil.copy(os.path.join(src, 'demo.py'), os.path.join(repo, '_mutants', 'm', 'demo.py'))
     demo = ['timeout', '300', '/venv/bin/python', '_mutants/m/demo.py']
-    rc0, out0 = run(demo, repo)
+    denv = dict(os.environ, PYTHONPATH=repo)
+    rc0, out0 = run(demo, repo, env=denv)
     res['demo_clean_exit'] = rc0
     rc, o = run(['git', 'apply', os.path.join(src, 'patch.diff')], repo)
     if rc != 0:
         res['error'] = 'patch does not apply to /repo HEAD: ' + o[:300]
     else:
-        rc1, out1 = run(demo, repo)
+        rc1, out1 = run(demo, repo, env=denv)
         res['demo_patched_exit'] = rc1
         res['demo_patched_tail'] = out1[-400:]
         missing = baseline(repo)
